@@ -332,11 +332,21 @@ class Session:
             if self.objects:
                 rec = self.objects[a[1] % len(self.objects)]
                 before = self.ll(rec, 0)
-            e = ex.MonteCarlo(ex.bioDraws('unrelated', 'UNIFORM') * ex.Variable('x1') + 1)
+            uname, utype = 'unrelated', 'UNIFORM'
+            if a[1] % 3 == 0:
+                # ... under the NAME of one of the session's draw variables, declared here with another type: the series
+                # is the one of the type declared in THIS formula
+                uname = self.cfg['vars'][0][0]
+                utype = 'UNIFORM' if self.cfg['vars'][0][1] != 'UNIFORM' else 'NORMAL'
+                ctx.probe('a draw variable name declared again with another type on the same database')
+            e = ex.MonteCarlo(ex.bioDraws(uname, utype) * ex.Variable('x1') + 1)
             self.calls.clear()
             got = e.get_value_c(database=self.db, number_of_draws=R2, aggregation=False, prepare_ids=True)
             calls = list(self.calls)
-            series = [c for c in calls if c[0] == 'UNIFORM']
+            series = [c for c in calls if c[0] == utype]
+            if not series and calls and uname != 'unrelated':
+                ctx.fail('I10.gen', f'draw variable {uname} declared with type {utype}: the generators called were '
+                                    f'{sorted(set(c[0] for c in calls))}')
             if len(series) == 1:
                 want = [float(np.mean(series[0][2][i, :] * r['x1'] + 1)) for i, r in enumerate(self.rows)]
                 for g_, w in zip(got, want):
